@@ -1,12 +1,13 @@
 #!/bin/sh
-# sc.sh <ID> <seedN> [extra seedcheck args]: run seedcheck on /tmp/seed-<ID>, keep as <ID>-<seedN>, print a summary
+# sc.sh <ID> <seedN> [extra seedcheck args]: run seedcheck on ${SEEDROOT:-/tmp/seed}-<ID>, keep it as <ID>-${SEEDTAG}<seedN>, print a summary
 ID=$1; S=$2; shift 2
-/verif/tools/seedcheck.py $ID /tmp/seed-$ID $S --keep-as $ID-$S "$@" 2>&1 | python3 -c "
+ROOT=${SEEDROOT:-/tmp/seed}
+/verif/tools/seedcheck.py $ID $ROOT-$ID $S --keep-as $ID-${SEEDTAG}$S "$@" 2>&1 | python3 -c "
 import sys,json
 t=sys.stdin.read()
 try:
     r=json.loads(t[t.index('{\n \"property\"'):])
-    print('$ID $S confirmed',r['confirmed'],'| demo w/o',r['demo_without_change'],'| with',r['demo_with_change'],'| base missing',r['baseline_missing'])
+    print('$ID ${SEEDTAG}$S confirmed',r['confirmed'],'| demo w/o',r['demo_without_change'],'| with',r['demo_with_change'],'| base missing',r['baseline_missing'])
     for c,d in r['checks'].items(): print('   check',c,'detected',d['detected'],'rc',d['rc'], d['signatures'][:2], d.get('error','')[-400:])
 except Exception as e: print('PARSE',e,t[-1500:])
 "
